@@ -73,3 +73,7 @@ def probes(ctx):
     it.acts = [(1, Op('INPUT')), (1, Op('INPUT'))]
     out += sb.probe(PROP, ctx, 'input-again-at-eof', sc, p, 'fatal')
     return out
+
+
+def features(ctx, case, cls, detail):
+    return sb.features(PROP, ctx, case, cls, detail)
